@@ -169,6 +169,56 @@ class C07(SeqProp):
             want = math.cos(phi / 2) ** 2
             if abs(p_exc - want) > 2e-3:
                 v.append(Violation("ramsey:population-not-cos2", f"phi={phi} via {how}: excitation {p_exc}, expected {want}", dict(scenario="ramsey", phi=phi, how=how)))
+        v.extend(self.sampled_phase_checks(tier, rng))
+        return v
+
+    def sampled_phase_checks(self, tier, rng):
+        """what the emulator is handed (the per-atom samples) carries, over every pulse and for
+        every atom the pulse reaches, the programmed phase plus the reference - also in XY mode
+        under an SLM mask, where the samples of a global channel are redistributed per atom"""
+        from pulser import Register, Sequence
+        from pulser.devices import MockDevice
+        from pulser.sampler import sample
+
+        v = []
+        for k in range(8 if tier == "quick" else 60):
+            xy = k % 2 == 0
+            mask = k % 4 < 2
+            phi = rng.choice([0.5, 1.3, math.pi / 2, 4.0, -1.0])
+            shift = rng.choice([0.0, 0.7, 2.5])
+            case = dict(scenario="sampled-phase", xy=xy, mask=mask, phi=phi, shift=shift)
+            with warnings.catch_warnings():
+                warnings.simplefilter("ignore")
+                reg = Register.rectangle(1, 3, spacing=8, prefix="q")
+                seq = Sequence(reg, MockDevice)
+                seq.declare_channel("g", "mw_global" if xy else "rydberg_global")
+                basis = "XY" if xy else "ground-rydberg"
+                if mask:
+                    seq.config_slm_mask(["q0"])
+                if shift:
+                    seq.phase_shift(shift, basis=basis)
+                seq.add(Pulse.ConstantPulse(200, 2.0, 0.0, phi), "g")
+                seq.add(Pulse.ConstantPulse(100, 1.0, 0.0, phi + 0.25), "g")
+                try:
+                    nd = sample(seq).to_nested_dict()
+                except Exception as e:  # noqa: BLE001
+                    v.append(Violation("sampled-phase:cannot-sample", repr(e)[:200], case))
+                    continue
+            for q in ("q1", "q2"):
+                ph = None
+                for scope in ("Local", "Global"):
+                    d = nd.get(scope, {}).get(basis, {})
+                    d = d.get(q, d) if scope == "Local" else d
+                    if isinstance(d, dict) and "phase" in d and np.any(np.asarray(d["amp"], dtype=float) != 0):
+                        ph = np.asarray(d["phase"], dtype=float)
+                        am = np.asarray(d["amp"], dtype=float)
+                        for (a, b, want) in ((0, 200, phi + shift), (200, 300, phi + 0.25 + shift)):
+                            seg = ph[a:b][am[a:b] != 0]
+                            if len(seg) and not all(close_mod(float(x), want) for x in seg):
+                                v.append(Violation("sampled-phase:not-programmed-plus-reference",
+                                                   f"{'XY' if xy else 'Ising'}{' + SLM mask' if mask else ''}: atom {q} samples {a}-{b} carry phase {sorted(set(np.round(seg, 6).tolist()))[:3]}, programmed+reference {want % TWO_PI}", case))
+                if ph is None:
+                    v.append(Violation("sampled-phase:atom-not-driven", f"atom {q} receives no samples", case))
         return v
 
     def replay(self, payload):
